@@ -509,6 +509,27 @@ func hugeFinite(f float64) bool {
 	return !math.IsInf(f, 0) && (f > 1e15 || f < -1e15)
 }
 
+// srcTagCombos: does some field carry only this package's tag / only the other package's / both?
+func srcTagCombos(t reflect.Type, ownKey string) (own, other, both bool) {
+	otherKey := "dialspflag"
+	if ownKey == "dialspflag" {
+		otherKey = "dialsflag"
+	}
+	switch t.Kind() {
+	case reflect.Ptr, reflect.Slice, reflect.Array:
+		return srcTagCombos(t.Elem(), ownKey)
+	case reflect.Struct:
+		for i := 0; i < t.NumField(); i++ {
+			f := t.Field(i)
+			_, a := f.Tag.Lookup(ownKey)
+			_, b := f.Tag.Lookup(otherKey)
+			o1, o2, o3 := srcTagCombos(f.Type, ownKey)
+			own, other, both = own || o1 || (a && !b), other || o2 || (b && !a), both || o3 || (a && b)
+		}
+	}
+	return
+}
+
 func hasHugeFloat(v reflect.Value) bool {
 	switch v.Kind() {
 	case reflect.Float32, reflect.Float64:
@@ -569,7 +590,10 @@ func run(raw json.RawMessage) driver.Result {
 		srcTag = "dialspflag"
 	}
 	o := rty.NamedOpts{MaxDepth: in.Depth, MaxWidth: in.Width, Leaf: leafPalette, Inits: inits,
-		TagNum: 1, TagDen: 4, SrcTags: []string{srcTag}, SrcTagNum: 1, SrcTagDen: 6,
+		TagNum: 1, TagDen: 4,
+		// both packages' tags, independently: a leaf may carry its own package's tag, only the OTHER
+		// package's (which must not name its flag), both, or neither
+		SrcTags: []string{"dialsflag", "dialspflag"}, SrcTagNum: 1, SrcTagDen: 5,
 		SrcTagGen: func(r *coqfmt.Rng) string {
 			if r.Chance(1, 25) {
 				return "-"
@@ -679,9 +703,19 @@ func run(raw json.RawMessage) driver.Result {
 		}
 		stackTerm = driver.Outcome(st, serr, spanic)
 	}
+	own, other, both := srcTagCombos(T, srcTag)
 	tags := []string{fmt.Sprintf("pkg-%d", in.Pkg), fmt.Sprintf("flags-%d", min(len(infos), 12)), fmt.Sprintf("occs-%d", min(len(occs), 12))}
 	if ne != 0 || te != 0 {
 		tags = append(tags, "custom-nameconfig")
+	}
+	if own {
+		tags = append(tags, "leaf-with-own-package-tag-only")
+	}
+	if other {
+		tags = append(tags, "leaf-with-other-package-tag-only")
+	}
+	if both {
+		tags = append(tags, "leaf-with-both-package-tags")
 	}
 	if repeated {
 		tags = append(tags, "repeated-flag")
